@@ -183,7 +183,7 @@ func init() {
 		r := tb.Fresh("bytes_eq", SBool)
 		i := tb.BoundVar("i", SInt)
 		same := tb.Forall([]*Term{i}, tb.Implies(tb.And(tb.Le(tb.Int(0), i), tb.Lt(i, a.slLen())),
-			tb.Eq(tb.Select(ra, tb.Add(a.slOff(), i)), tb.Select(rb, tb.Add(b.slOff(), i)))))
+			tb.Eq(tb.Select(ra, tb.Idx(a.slOff(), i)), tb.Select(rb, tb.Idx(b.slOff(), i)))))
 		e.assume(st, tb.Eq(r, tb.And(tb.Eq(a.slLen(), b.slLen()), same)))
 		k(st, scalar(r))
 	}
@@ -204,7 +204,7 @@ func init() {
 			src := tb.Select(h, b.slArr())
 			nr := tb.Fresh("repeat_row", SArrI)
 			i := tb.BoundVar("i", SInt)
-			e.assume(st, tb.Forall([]*Term{i}, tb.Implies(tb.And(tb.Le(tb.Int(0), i), tb.Lt(i, b.slLen())), tb.Eq(tb.Select(nr, i), tb.Select(src, tb.Add(b.slOff(), i)))), []*Term{tb.Select(nr, i)}))
+			e.assume(st, tb.Forall([]*Term{i}, tb.Implies(tb.And(tb.Le(tb.Int(0), i), tb.Lt(i, b.slLen())), tb.Eq(tb.Select(nr, i), tb.Select(src, tb.Idx(b.slOff(), i)))), []*Term{tb.Select(nr, i)}))
 			e.setH(st, "E:uint8", tb.Store(h, res.slArr(), nr))
 		} else {
 			h := e.H(st, "E:uint8", SArr2I)
